@@ -31,6 +31,16 @@ def pack_scripts(rng, n, noid=4):
                 s += sc.undo(-1, clk=clk)
             s += sc.pack(clk, gc) + sc.commit([(2, 'v2', ())], clk=clk + 1) + sc.undo(-1, clk=clk + 1) + sc.reopen()
             out.append(s)
+    # deterministic family: one transaction undoes two earlier transactions of the same object (two records for the
+    # oid in one transaction), a later undo points back into it, then a pack below / inside / above the chain
+    for sec in (1, 3, 4, 5):
+        for gc in (True, False):
+            for first in ((-1, -2),):
+                s = sc.commit([(0, 'v1', (1, 2)), (1, 'v1', ()), (2, 'v1', ())], clk=1) + sc.commit([(2, 'v2', ())], clk=1)
+                s += sc.commit([(1, 'v2', ())], clk=2)
+                s += sc.commit([(1, 'v1', ())], clk=3) + sc.undo(first[0], clk=4, more=(first[1],))
+                s += sc.commit([(1, 'v2', ())], clk=5) + sc.undo(-1, clk=6) + sc.pack(sec, gc) + sc.reopen()
+                out.append(s)
     while len(out) < n:
         clk = 1
         kids = list(range(1, noid))
@@ -100,10 +110,15 @@ def run(ctx):
             scripts = [s for s in scripts if not _dangling_txn(s)]
         cs = sd.consts(kind, **dict(big, MaxTxn=14, MaxRecs=5, MaxClock=8, RefSets='AllRefs'))
         behs = sc.evaluate(ctx, kind, scripts, cs)
+        whole = [len(b) == len(s_) + 1 for s_, b in zip(scripts, behs)]
+        if kind == 'file' and not all(whole[:14]):
+            # (an entry that is not enabled in the model ends a script silently: the directed families must run through)
+            raise RuntimeError('directed pack scenarios were not evaluated to their end: %r' % [i for i, w in enumerate(whole[:14]) if not w])
         res += S.replay_all(ctx, behs, kind, cs, opts={'sparse': False}, tag='scr')
         cov[kind] = S.judge(ctx, res, kind, focus=packed)
         cov[kind]['sample'] = res[0]['sig'][:30]
         cov[kind]['scripted'] = len(behs)
+        cov[kind]['scripts_evaluated_to_the_end'] = sum(whole)
     ev = sum(v['behaviours'] for v in cov.values())
     return ctx.finish({
         'evaluations': ev,
@@ -112,7 +127,8 @@ def run(ctx):
                 'and of MappingStorage.pack against the relation PackOK exhaustively on small constants and along every '
                 'simulated behaviour; behaviours under NextPack (commits with references, deletions, undo records crossing '
                 'the pack time, packs at every second boundary with gc on/off, repeated packs, close/reopen, further '
-                'commits and undos after the pack) are replayed: the packed history (iterator) and every query at or after '
+                'commits and undos after the pack; directed families: modify/undo chains over the only reference to a child, one transaction '
+                'undoing two transactions of the same object with a later undo pointing back into it) are replayed: the packed history (iterator) and every query at or after '
                 'the pack time must equal what the transcription yields; non-trivial = contains a pack and two commits',
         'traces_validated_against_impl': ev,
         'per_storage': cov,
